@@ -25,4 +25,28 @@ pub fn cob_closed_eval(s: &mut Src) -> R {
     pre!(true);
     Ok(())
 }
-crate::harness_table!(COB: cob_closed_eval [unwind 8]);
+
+// C01 / C05 (Gaussian elimination kernel) — witness search / replay on the real crate: the inverse of
+// an invertible morphism u . id over Q is u^-1 . id  (f^-1 . f == id).  Paired with the Verus unit lccob.
+use yui::Ratio;
+use yui_kh::kh::internal::v2::cob::{Cob, LcCob, LcCobTrait};
+use yui_kh::kh::internal::v2::tng::TngComp;
+use num_traits::{One, Zero};
+pub fn cob_lc_inv(s: &mut Src) -> R {
+    let (n, d) = (s.small(-9, 9), s.small(1, 9));
+    pre!(n != 0);
+    reach!();
+    type Q = Ratio<i64>;
+    let v = Tng::new(vec![TngComp::arc([0, 1]), TngComp::arc([2, 3])]);
+    let id = Cob::id(&v);
+    let u = Q::new(n, d);
+    let f = LcCob::from((id.clone(), u.clone()));
+    ob!(f.is_invertible(), "LcCob::is_invertible(unit.id)");
+    let Some(finv) = f.inv() else { ob!(false, "LcCob::inv(unit.id)-is-some"); return Ok(()) };
+    ob!(&finv * &f == LcCob::from((id.clone(), Q::one())), "LcCob::inv::(eps.c)^-1==eps^-1.c^-1");
+    // a non-invertible morphism (two terms / zero) has no inverse
+    let z: LcCob<Q> = LcCob::zero();
+    ob!(!z.is_invertible() && z.inv().is_none(), "LcCob::inv(0)-is-none");
+    Ok(())
+}
+crate::harness_table!(COB: cob_closed_eval [unwind 8], cob_lc_inv [unwind 4]);
